@@ -91,11 +91,11 @@ def main(argv=None):
         # obligations of this property: verification units (functions/lemmas) whose default labels include it
         for short, st in r.fn_stats.items():
             owner = short if short in g.owner_props else ('ghost:' + short.split('::')[-1])
-            props = g.owner_props.get(owner)
+            props = g.props_of(owner) if owner in g.owner_props else None
             if props is None:
                 # trait impls etc.: attribute by suffix
                 cand = [k for k in g.owner_props if k.endswith('::' + short.split('::')[-1])]
-                props = g.owner_props.get(cand[0]) if len(cand) == 1 else []
+                props = g.props_of(cand[0]) if len(cand) == 1 else []
             if pid in (props or []) or not props and spec.get('count_unlabelled'):
                 n_obl += 1
                 if st.get('success'): n_dis += 1
@@ -114,10 +114,10 @@ def main(argv=None):
         # a function on this property's path that the verifier reports as not verified, with no failure attributed to the property
         # through a clause label: report its failures under the function's own properties
         for short, st in r.fn_stats.items():
-            if st.get('success') is False and pid in (g.owner_props.get(short) or []):
+            if st.get('success') is False and pid in g.props_of(short):
                 if not any(f.owner == short for (_, f) in failures) and not any(s_[1] == short for s_ in soft):
                     for f in r.failures:
-                        if f.owner == short:
+                        if f.owner == short and pid in g.props_of(short, f):
                             md = r.modes.get(f.owner)
                             if md in ('contract_only', 'external'): soft.append((name, f.owner, 'contract-only verification of the rewritten function failed: ' + f.ident()))
                             else: failures.append((name, f))
